@@ -69,8 +69,12 @@ Candidate(u, post, ev) ==
 Excused(u, pre, post, ev, i) ==
     \/ i \in post.incl
     \/ u[i].e < post.ep
-    \/ \E j \in pre.any \cup {i} : /\ u[j].s = u[i].s /\ u[j].e = u[i].e /\ u[j].n <= u[i].n
-                                   /\ j \in ev.inv
+    \/ i \in ev.inv
+    \* ... or follows a transaction that can never be applied any more for another reason than a consumed nonce (a
+    \* predecessor whose nonce was merely consumed - by a competing transaction in the block - leaves its successors
+    \* perfectly valid: they stay)
+    \/ \E j \in pre.any : /\ u[j].s = u[i].s /\ u[j].e = u[i].e /\ u[j].n <= u[i].n
+                           /\ j \in ev.inv /\ ~Stale(u, post, j)
 Retained(u, pre, post, ev) == \A i \in pre.pool : i \notin post.pool => Excused(u, pre, post, ev, i)
 Accepted(pre, post, ev) == (ev.ev = "Add" /\ ev.res = "ok" /\ ~pre.sync) => ev.tx \in post.pool
 
